@@ -11,7 +11,7 @@ RULE = ("every base sequence (<=3 notes over 2 pitches x 1-2 channels, with/with
         "perturbation: pitch+-1, onset+-1, length+-1, velocity, channel, signature value, signature tick, uniform channel "
         "relabelling} x all 16 ignore-flag sets x both argument orders; expected verdict from a table on the descriptions; "
         "non-trivial = a perturbed pair")
-SCALE = ('16-120 notes (long); ladder 33..1025 notes over up to ~25000 ticks with a pedal note, one-tick / one-step perturbations at the start, middle and far end, signature ticks moved by one; eight fixed insertion orders compared directly and after handing the relative view on (up to 257 notes)')
+SCALE = ('16-120 notes (long); ladder 33..1025 notes over up to ~25000 ticks with a pedal note, one-tick / one-step perturbations at the start, middle and far end, signature ticks moved by one; eight fixed insertion orders compared directly and after handing the relative view on (up to 257 notes); equal signatures on one tick on two channels in every insertion order; EVERY ordered pair of the 15 keys and of nine time signatures as operands; symmetry for every flag set also where the value is undefined; numpy integer ticks every 5th case')
 ASSUMPTIONS = ["with ignore_channel set, only pairs with identical channel layout or a uniform relabelling of a "
                "single-channel sequence are demanded (the statement defines nothing else)"]
 REQUIRED_FLAGS = ["perturb:pitch", "perturb:onset", "perturb:length", "perturb:velocity", "perturb:channel",
